@@ -155,6 +155,12 @@ def harmonic_set(a: PointTensor, b: PointTensor, c: PointTensor) -> PointTensor:
         The point that forms a harmonic set with the given points.
 
     """
+    if a.dim == 1:
+        # points of the projective line: the construction is carried out on the line y = 0 of the plane
+        embedding = np.array([[1, 0], [0, 0], [0, 1]])
+        a, b, c = (x._matrix_transform(embedding) for x in (a, b, c))
+        return harmonic_set(a, b, c)._matrix_transform(embedding.T)
+
     l = join(a, b)
     o = l.general_point
     n = l.dim + 1
